@@ -27,4 +27,5 @@ VARIANTS = [
     V("N-max-args-swapped", O, "    start_time = max(time - time_buffer, 0)\n    end_time = time + time_buffer", "    start_time = max(0, time - time_buffer)\n    end_time = time_buffer + time", None),
     V("N-positional-time-buffer", O, "        return buffer_timestamp(geometry, time_buffer=time_buffer)", "        return buffer_timestamp(geometry, time_buffer)", None),
     V("N-end-plus-assign", O, "    end_time += time_buffer\n    return data.TimeInterval", "    end_time = end_time + time_buffer\n    return data.TimeInterval", None),
+    V("buffered-shape-converted-with-the-other-constructor", "src/soundevent/geometry/operations.py", '    if json_data["type"] == "Polygon":', '    if json_data["type"] != "Polygon":', "R11.5"),
 ]
